@@ -190,21 +190,58 @@ def impl_fix(s):
     return r + ' again: ' + _fix_once(l)
 
 
+def main_language(opt):
+    """run the REAL cli.main() with --language=opt and a stubbed check_all: ('ok', options.language) | ('err', exit status) | ('crash', name)"""
+    import io
+    import sys
+    from lib import cli
+    cap = {}
+
+    def fake_check_all(files, *, options):
+        cap['language'] = options.language
+    saved = (cli.check_all, cli.Checker.patch_environment, sys.argv, sys.stderr, sys.stdout)
+    cli.check_all = fake_check_all
+    cli.Checker.patch_environment = staticmethod(lambda: None)
+    sys.argv = ['i18nspector', '--language=' + opt, 'x.po']
+    sys.stderr = io.StringIO()
+    sys.stdout = io.StringIO()
+    try:
+        try:
+            cli.main()
+        except SystemExit as e:
+            return ('err', e.code)
+        except UnicodeEncodeError:
+            raise
+        except Exception as e:  # noqa
+            return ('crash', type(e).__name__)
+        return ('ok', cap.get('language'))
+    finally:
+        cli.check_all, cli.Checker.patch_environment, sys.argv, sys.stderr, sys.stdout = saved
+
+
 def impl_cli(s):
-    """the statements of cli.main() for -l"""
+    """-l through the real cli.main(); an 'invalid language' exit is refined (syntax / codes) with the two library calls main() makes"""
     from lib import ling
+    r = main_language(s)
+    if r[0] == 'crash':
+        return 'crash ' + r[1]
     try:
         language = ling.parse_language(s)
         language.fix_codes()
+        direct = 'ok'
     except ling.LanguageSyntaxError:
-        return 'err syntax'
+        direct = 'err syntax'
     except ling.LanguageError:
-        return 'err fix'
+        direct = 'err fix'
     except Exception as e:  # noqa
-        return 'crash ' + type(e).__name__
-    language.remove_encoding()
-    language.remove_nonlinguistic_modifier()
-    return 'ok ' + lang_s(language)
+        direct = 'crash ' + type(e).__name__
+    if r[0] == 'err':
+        if direct == 'ok' or r[1] != 2:
+            return 'main exits %r although parse_language/fix_codes say %s' % (r[1], direct)
+        return direct
+    if direct != 'ok' or r[1] is None:
+        return 'main accepts although parse_language/fix_codes say %s' % direct
+    return 'ok ' + lang_s(r[1])
 
 
 def munch(s):
@@ -301,15 +338,13 @@ def snapshot_checker():
 
 
 def make_opt_language(opt):
-    """what cli.main() stores in options.language for -l opt"""
+    """what the real cli.main() stores in options.language for -l opt"""
     if opt is None:
         return None
-    from lib import ling
-    language = ling.parse_language(opt)
-    language.fix_codes()
-    language.remove_encoding()
-    language.remove_nonlinguistic_modifier()
-    return language
+    r = main_language(opt)
+    if r[0] != 'ok':
+        raise ValueError('cli.main() rejects -l %r: %r' % (opt, r))
+    return r[1]
 
 
 def run_check(payload):
@@ -715,7 +750,7 @@ def path_cases(ctx):
     return sorted(set(out))
 
 
-OPTS = [None, 'pl', 'pl_PL', 'pol', 'de_DE@euro', 'pl.UTF-8', 'de']
+OPTS = [None, 'pl', 'pl_PL', 'pol', 'de_DE@euro', 'pl.UTF-8', 'de', 'de_AT.ISO-8859-15@euro', 'pl_PL.UTF-8@euro', 'sr_RS.UTF-8@latin']
 LANGVALS = [
     ('absent', []), ('empty', ['']), ('ll', ['pl']), ('ll-other', ['de']), ('ll_CC', ['pl_PL']), ('ll_CC-other', ['de_AT']),
     ('lll-with-2', ['pol']), ('lll-with-2-CC', ['ger_DE']), ('lll-without', ['ang']), ('unknown-code', ['xx']), ('unknown-lll', ['xyz']),
